@@ -116,6 +116,11 @@ def c06(report):
                       checks=("state", "confluence"))
     ecf.defer(ljobs, either(by_clause("confluence", "state.history"),
                                        by_clause("call.exception", ops={"partial_fit"})))
+    # Thompson Sampling with an arm-dependent binarizer: chunked training must convert each reward with its own arm
+    bjobs = life_jobs(report.tier, report.seed, {"fit", "partial_fit", "predict_expectations"}, depth=5,
+                      over=dict(QueryRows={2}, Offsets={0}, MaxChunk=3, MaxHist=6), only=lambda c: c[0] == "ts" and c[1] != "tree",
+                      tag="-c06bin", checks=("state", "confluence"), extra=dict(bin_name="thr"), sims=False)
+    ecf.defer(bjobs, by_clause("confluence", "state.history", "call.exception"))
     ecf.flush(report)
     _nontrivial_from_counts(report, "cf.confluent")
 
@@ -175,16 +180,19 @@ def c13(report):
     report.nontrivial_rule = "warm_start edges (cold arms present) replayed; status, copied state and cold_arms compared"
     ops = {"fit", "partial_fit", "add_arm", "remove_arm", "warm_start", "predict_expectations"}
     jobs = []
-    feats = ["std", "dup", "zero", "far"] if report.tier == "thorough" else ["std", ["dup", "zero", "far"][report.seed % 3]]
+    feats = ["std", "dup", "zero", "far"] if report.tier == "thorough" else ["std", "dup", ["zero", "far"][report.seed % 2]]
     for feat in feats:
         over = dict(Feat=feat, QueryRows={0}, Labels={"a", "b", "c", "d"}, InitArms=["a", "b", "c"], MaxBatch=1,
                     Quantiles={(0, 1), (1, 4), (1, 2), (1, 1)}, Rewards={1, 3})
         fj = cf_jobs(WARM_LPS, report.tier, report.seed, ops=ops, over=over, tag="-" + feat, sims=(feat == "std"),
                      checks=("state",))
-        for job in fj:       # ties between equally distant trained arms: every label type, also in the quick tier
+        for job in fj:       # ties between equally distant trained arms: every label type, three calls deep, also in the quick tier
             if job["mode"] == "bfs" and feat != "std":
                 lp = job["consts"]["LP"]
                 job["bindings"] = bindings_for(lp, "quick", report.seed, want=3)
+                job["consts"]["MaxDepth"] = max(job["consts"]["MaxDepth"], 4)
+                job["consts"]["Ops"] = {"fit", "partial_fit", "warm_start", "predict_expectations"}
+                job["consts"]["Quantiles"] = {(1, 2), (1, 1)}
         jobs += fj
     for job in jobs:
         if job["consts"]["LP"] == "ts":
@@ -533,13 +541,14 @@ def combos(tier, seed, only=None):
     return third + [c for c in must if c in allc and c not in third]
 
 
-def life_jobs(tier, seed, ops, checks=None, rejects=False, depth=None, over=None, only=None, sims=True, tag=""):
+def life_jobs(tier, seed, ops, checks=None, rejects=False, depth=None, over=None, only=None, sims=True, tag="", extra=None):
     from harness import gen
     jobs = []
     for i, (lp, np_) in enumerate(combos(tier, seed, only)):
         bkw = dict(lp=lp, np_=np_, labelmap=["int", "str", "float"][(i + seed) % 3],
                    container=["ndarray", "list", "pandas"][(i // 3 + seed) % 3],
                    n_jobs=[1, 2, 3][(i + seed) % 3] if np_ else 1, backend="threading" if np_ else None)
+        bkw.update(extra or {})
         if np_ == "tree" and lp == "ts":
             bkw["n_jobs"] = 1        # leaf policies share the main generator between threads (known finding F7, decided by C05)
         b = gen.GenBinding(**bkw)
